@@ -203,10 +203,20 @@ CellKites(V, T, k) ==
 \* area of a bounded cell times F, bracketed:  Lo <= area * F < Lo + (number of kites)
 AreaLoF(kites, F) == SumSeqOf([j \in DOMAIN kites |-> (kites[j].q * F) \div (8 * kites[j].t)])
 AreaHiF(kites, F) == AreaLoF(kites, F) + Len(kites)
-\* exact: area = AreaNum / AreaDen with AreaDen = 8 * lcm of the T's (only used when it fits)
+\* exact: area = Num / (8 L), L = lcm of the T's of the fan -- formed only while it stays small (ExactCap), so that no
+\* product leaves the 32-bit range; the reduced fraction << num, den >> is what a float can be identified with
 RECURSIVE Gcd(_, _)
 Gcd(a, b) == IF b = 0 THEN a ELSE Gcd(b, a % b)
 Lcm(a, b) == (a \div Gcd(a, b)) * b
+ExactCap == 1250
+FanLcm(kites) == FoldSeq(LAMBDA kt, acc : IF acc > ExactCap THEN acc ELSE Lcm(acc, kt.t), 1, kites)
+MaxAbsKite(kites) == Max({AbsV(kites[j].q) : j \in DOMAIN kites})
+ExactFits(kites) == FanLcm(kites) <= ExactCap /\ MaxAbsKite(kites) * Len(kites) < 200000
+AreaExact(kites) ==
+    LET L == FanLcm(kites)
+        num == SumSeqOf([j \in DOMAIN kites |-> kites[j].q * (L \div kites[j].t)])
+        g == Gcd(AbsV(num), 8 * L)
+    IN << num \div g, (8 * L) \div g >>
 
 \* ---- the capped areas of the split cross ------------------------------------
 \* voronoi_pixel_areas_for_split: cap = 90th percentile (linear interpolation between order statistics, the rule of
@@ -371,6 +381,21 @@ KitesTileOn(V, t) ==
 KitesTileTheTriangle == IsTri => KitesTileOn(TV, tab)
 PositiveAreasOn(V, t) == \A k \in Idx(V) \ t.hull : AreaLoF(CellKites(V, t.T, k), 64) > 0
 BoundedCellsHavePositiveArea == IsTri => PositiveAreasOn(TV, tab)
+\* the exact area lies in the fixed-point bracket used for recorded executions
+ExactAreaInBracketOn(V, t) ==
+    \A k \in Idx(V) \ t.hull :
+        LET ks == CellKites(V, t.T, k) IN
+        ExactFits(ks) => LET a == AreaExact(ks) IN
+                         a[2] > 0 /\ a[1] > 0 /\ AreaLoF(ks, 1000) * a[2] <= 1000 * a[1] /\ 1000 * a[1] < AreaHiF(ks, 1000) * a[2]
+ExactAreaInBracket == IsTri => ExactAreaInBracketOn(TV, tab)
+\* the tables follow the vertex order: reversing the input reverses the rows and renames the entries, nothing else
+PermutationCovariantOn(V, t) ==
+    LET n == Len(V)
+        R == TLCEval([k \in 1 .. n |-> V[n + 1 - k]])
+        adjR == Adjacency(R)
+    IN /\ \A k \in 1 .. n : adjR[n + 1 - k] = {n + 1 - j : j \in t.adj[k]}
+       /\ HullVertices(R) = {n + 1 - k : k \in t.hull}
+PermutationCovariant == IsTri => PermutationCovariantOn(TV, tab)
 \* every vertex lies in some triangle, every triangle is empty: the answer is a triangulation of the vertices
 EveryVertexInATriangle == IsTri => \A k \in 1 .. Len(mesh.cells) : TrianglesAt(tab.T, k) # {}
 =============================================================================
